@@ -125,6 +125,8 @@ class IntShim(metaclass=_IntMeta):
             return x.value
         if getattr(x, "_vf_float", False):
             return x.__int__()
+        if getattr(x, "_vf_z", False):
+            return x
         if getattr(x, "_vf_sym", False):
             raise Unsupported("int(%s)" % type(x).__name__)
         return builtins.int(x, *a)
